@@ -256,6 +256,79 @@ example : expectedIndex 0 0 1 = 0 := by decide
 example : check pairH exAP exHash 0 = .accept := by decide
 example : check pairH exAP [0x11, 0x23] 0 = .reject := by decide
 
+def exHash0 : Bytes := [0x11, 0x22]
+def exScript0 : Bytes := markerBytes ++ exHash0 ++ [1, 0, 0, 0] ++ [0, 0, 0, 0]
+
+/-! ## the verdict is a function of the serialised proof (objects with a cache cell)
+
+`AuxPow` values are mutable Go objects that are decoded into, checked, and decoded into again.
+The real `BtcTx.Hash()` recomputes the hash from the fields every time.  The model below gives the
+object an explicit memo cell for the coinbase hash, so that "no state survives a `Deserialize`" is
+a statement that can fail: it holds when decoding clears the cell (or when there is none, as in
+the code), and fails — witness below — when a memo survives. -/
+
+/-- the decoded fields; the coinbase is kept as bytes and hashed by `hashTx` -/
+structure Fields where
+  cbTx : Bytes
+  parBranch : List Bytes
+  parIdx : Int
+  parRoot : Bytes
+  auxBranch : List Bytes
+  auxIdx : Int
+  script : Option Bytes
+
+/-- an `AuxPow` object: fields + the memo cell a caching `Hash()` would keep -/
+structure Obj where
+  f : Fields
+  memo : Option Bytes
+
+def Fields.toAP (hashTx : Bytes → Bytes) (f : Fields) : AP :=
+  ⟨hashTx f.cbTx, f.parBranch, f.parIdx, f.parRoot, f.auxBranch, f.auxIdx, f.script⟩
+
+/-- `ap.Check(hash, chainID)` on an object: uses the memo when there is one, and leaves one behind -/
+def checkObj (H : Bytes → Bytes → Bytes) (hashTx : Bytes → Bytes) (o : Obj) (hash : Bytes) (chainID : Int) :
+    Verdict × Obj :=
+  let cb := o.memo.getD (hashTx o.f.cbTx)
+  (check H ⟨cb, o.f.parBranch, o.f.parIdx, o.f.parRoot, o.f.auxBranch, o.f.auxIdx, o.f.script⟩ hash chainID,
+   { o with memo := some cb })
+
+/-- `ap.Deserialize(w)` into an existing object; `clears` = the decoder resets the memo cell -/
+def decodeInto {W : Type} (decode : W → Option Fields) (clears : Bool) (o : Obj) (w : W) : Option Obj :=
+  (decode w).map fun f => ⟨f, if clears then none else o.memo⟩
+
+/-- **The verdict is a function of the serialised proof**: whatever the object went through before
+    (any fields, any memo, any number of earlier checks), after a decode that clears the cell — in
+    particular for the real code, which has no cell — `Check` answers what the model `check` answers
+    on the decoded fields. -/
+theorem C10_verdict_function_of_wire {W : Type} (H : Bytes → Bytes → Bytes) (hashTx : Bytes → Bytes)
+    (decode : W → Option Fields) (o : Obj) (w : W) (f : Fields) (hd : decode w = some f)
+    (hash : Bytes) (chainID : Int) :
+    ∃ o', decodeInto decode true o w = some o' ∧
+      (checkObj H hashTx o' hash chainID).1 = check H (f.toAP hashTx) hash chainID := by
+  refine ⟨⟨f, none⟩, by simp [decodeInto, hd], ?_⟩
+  simp [checkObj, Fields.toAP]
+
+/-- checking twice gives the same verdict (the memo a check leaves behind is the true hash) -/
+theorem C10_check_idempotent (H : Bytes → Bytes → Bytes) (hashTx : Bytes → Bytes) (f : Fields)
+    (hash hash' : Bytes) (c c' : Int) :
+    (checkObj H hashTx (checkObj H hashTx ⟨f, none⟩ hash c).2 hash' c').1 =
+      check H (f.toAP hashTx) hash' c' := by
+  simp [checkObj, Fields.toAP]
+
+/-- With a memo that survives decoding the statement is false: proof A is checked, forged proof B
+    (A's parent branch, another coinbase) is decoded into the same object and accepted, although
+    `check` rejects B's fields. -/
+def seqA : Fields := ⟨[0xaa], [], 0, [0xaa], [], 0, some exScript0⟩
+def seqB : Fields := ⟨[0xbb], [], 0, [0xaa], [], 0, some exScript0⟩
+
+theorem C10_surviving_memo_false :
+    ¬ (∀ (o : Obj) (w : Bool) (f : Fields), (fun b => some (if b then seqB else seqA)) w = some f →
+        ∀ o', decodeInto (fun b => some (if b then seqB else seqA)) false o w = some o' →
+          (checkObj pairH id o' exHash0 0).1 = check pairH (f.toAP id) exHash0 0) := by
+  intro h
+  have := h (checkObj pairH id ⟨seqA, none⟩ exHash0 0).2 true seqB rfl _ rfl
+  exact absurd this (by decide)
+
 /-- **Full byte-level statement is false** (known finding `C10-misaligned-marker`): for *every*
     node hash there is an accepted proof whose script bytes contain no `fa be 6d 6d` at all —
     the marker, the root and `size` start at an odd nibble of the hex string.  The witness is
